@@ -329,6 +329,17 @@ def check_C01(tier):
         h = fs.History(inst, [("kill", round(rng.uniform(0.05, 0.9), 3))], label="external kill #%d" % k); h.accept = False
         hs.append(h)
     R.histories(inst, hs)
+    # Go-function task written the documented way (task.OutIP(port).Write(data), examples/custom_execution_function)
+    inst = dict(name="FW", max=1, bufsize=2, procs=[zoo.src("s", ["1"]), zoo.cmd("a", ["in"], ["out"], kind="gofunc_ipwrite")], edges=[zoo.E("s.out", "a.in")])
+    rr = fc.real_runs(inst, [dict(env={}, bufsize=2, timeout=20)])[0]
+    chk.evaluations += 1
+    if (rr.rc != 0 or not rr.completed) and "o/a.out_1.txt" in rr.snapshot:
+        msg = ("a Go-function task that writes through FileIP.Write leaves its file directly at the final path although the task failed "
+               "(rc=%s: %s)" % (rr.rc, rr.stderr[-120:].replace("\n", " | ")))
+        if findings.active("F11"): chk.known_finding("F11", msg)
+        else: chk.violation(msg, dict(instance=inst))
+    elif rr.rc == 0 and rr.completed:
+        chk.nontrivial.add("ipwrite-works")
     return chk.finish()
 
 @register("C09")
